@@ -13,7 +13,9 @@ Row clauses for a yielded row R of node n called with (sigma, f), m := R (+) sig
   R4 filter        filt(n) and not f  ->  not lbl       filt(n) := truth_node(n) or the library's own position test
                    `n is n._conditions_root_ or isinstance(n._parent_, LogicalOperator)` evaluated when n is called
   R5 own value     is_value(n)  ->  nid(n) in dom R;   Binds(n) subset dom m  (ids every row must bind)
-Stream clause
+Stream clauses
+  NE non-empty     nid(n) in dom sigma and not lab(n)  ->  the stream has at least one row  (a bound value node passes
+                   the binding on; used by `next(...)` in SetOf and the conclusions)
   C1 completeness  for every rho extending sigma with WD(n, rho) and (filt(n) -> Den(n, rho) or f):
                    some yielded row has rho extending (R (+) sigma)     [or was suppressed as a duplicate]
 Precondition
@@ -284,13 +286,22 @@ class EvalContract(LibModel):
         for _ in range(4):
             h = self.havoc_for_loop(eng, st, body, callee=callee, extra_refs=mutated)
             h.ghost['mut'] = frozenset()
+            h.ghost['writes'] = []
+            h.ghost['frames'] = []
             eng.scouting += 1
             try:
                 outs = run_iteration(h)
             finally:
                 eng.scouting -= 1
             grew = False
+            fw = mutated.setdefault('__fields__', {'writes': [], 'frames': []})
             for o in outs:
+                for w in o.st.ghost.get('writes', []):
+                    if not any(w[0] == x[0] and w[1].eq(x[1]) for x in fw['writes']):
+                        fw['writes'].append(w)
+                for c in o.st.ghost.get('frames', []):
+                    if not any(c.eq(x) for x in fw['frames']):
+                        fw['frames'].append(c)
                 for (ref, kind) in o.st.ghost.get('mut', ()):
                     if ref in pre_refs and kind not in mutated.get(ref, set()):
                         mutated.setdefault(ref, set()).add(kind)
@@ -308,6 +319,7 @@ class EvalContract(LibModel):
         # dicts mutated through names bound before the loop
         syn = self.mutated_dict_refs(eng, st, body)
         extra_refs = dict(extra_refs) if extra_refs else {}
+        scouted_fields = extra_refs.pop('__fields__', None)
         sref = st.ghost.get('sigma_ref')
         if sref is not None and 'rely' in extra_refs.get(sref, ()):
             # the consumer may have consistently extended sigma itself (it was yielded): sigma_now grows
@@ -392,6 +404,16 @@ class EvalContract(LibModel):
             st.fields['is_false'] = Z.havoc_sub(st.fields['is_false'], callee, Z.ITE_B)
             st.fields['ywf'] = Z.havoc_sub(st.fields['ywf'], callee, Z.ITE_B)
             st.fields['eval_parent'] = Z.havoc_sub(st.fields['eval_parent'], callee, Z.ITE_N)
+        if scouted_fields is not None:
+            # field writes and callee frames observed by executing the body once in scout mode
+            for fld, nd in scouted_fields['writes']:
+                arr = st.fields[fld]
+                st.fields[fld] = z3.Store(arr, nd, z3.FreshConst(arr.sort().range(), 'hfv'))
+            for c in scouted_fields['frames']:
+                st.fields['is_false'] = Z.havoc_sub(st.fields['is_false'], c, Z.ITE_B)
+                st.fields['ywf'] = Z.havoc_sub(st.fields['ywf'], c, Z.ITE_B)
+                st.fields['eval_parent'] = Z.havoc_sub(st.fields['eval_parent'], c, Z.ITE_N)
+            return st
         for fld, recv_expr in self.field_stores(body):
             outs = None
             try:
@@ -580,6 +602,7 @@ class EvalContract(LibModel):
             res = []
             for alias in ([False, True] if reachable(h) else [False]):
                 b = h.clone()
+                b.ghost['frames'] = b.ghost.get('frames', []) + [c]
                 b.path.append(f"loop{ordinal}:{'witness-' if witness else ''}{'alias' if alias else 'fresh'}")
                 # sigma as the callee sees it now (the caller may have consistently extended it: rely)
                 csig = b.dicts[sref] if sref is not None else sig
@@ -835,6 +858,8 @@ class EvalContract(LibModel):
         row = st.dicts[v.ref]
         m = row.merge(sig)
         lbl = z3.Select(st.fields['is_false'], n)
+        st = st.clone()
+        st.ghost['yielded'] = True
         if eng.mode == 'sound':
             tag = f"row@yield#{ordinal}"
             eng.oblige(st, f"{tag}/R0-locality", row.subset_of_ids(with_id(Z.ids_union(sig.has, Z.SubIds(n)), CONSUMER_ID)),
@@ -891,6 +916,11 @@ class EvalContract(LibModel):
         else:
             if o.sig == RAISE:
                 self.on_raise(eng, o)
+            elif o.sig in (NEXT, RETURN) and not o.st.ghost.get('yielded'):
+                # NE: a path that ends without having yielded must not be one on which a row is owed
+                n = o.st.ghost['self']
+                eng.oblige(o.st, "NE-nonempty-when-bound",
+                           z3.Not(z3.And(o.st.ghost['sigma0'].contains(Z.nid(n)), z3.Not(lab(n)))), line=0)
 
     def signature(self, ob, model):
         """semantic fingerprint of a counter-model (used to match known findings; no path / line information)."""
